@@ -137,6 +137,24 @@ def apply(recipe, src, npos, nargs):
         t = ["@TEXT\nline1\nline2\n", "@@ARR\nl1\nl2\n", "string tb = @END\nabc\nEND\n;\n", "string *ta = @@END\na\nb\nEND\n;\n", "@\n", "@@\n",
              "string tc = @" + "L" * 2000 + "\nx\n", "mixed td = ({ @E\nx\nE\n, @@E\ny\nE\n });\n"][a % 8]
         return (src[:line_start] + t + src[line_start:]).encode()
+    if d == "anonend":
+        # the text ENDS inside anonymous functions whose parameters / locals carry names the rest of the world uses:
+        # efuns the probe calls and names of the probe's own globals and functions
+        names = ["strlen", "map_array", "filter_array", "sort_array", "evaluate", "functionp", "sizeof", "allocate", "explode", "implode",
+                 "member_array", "this_object", "sprintf", "g1", "fl_helper", "time", "living", "users", "write", "call_other"]
+        k = 1 + a % 4
+        rot = names[(a * 3 + p) % len(names):] + names[:(a * 3 + p) % len(names)]
+        outer = ["", "int o1", "int o1, int o2, int o3"][p % 3]
+        depth = 1 + (a // 4) % 3
+        t = "mixed anon_end(%s) { int l1; " % outer
+        for lvl in range(depth):
+            ns = rot[lvl * k:lvl * k + k]
+            if a % 2:
+                t += "return function (%s) { int %s; " % (", ".join("int " + n for n in ns), "q%d" % lvl)
+            else:
+                t += "return function (int r%d) { int %s; " % (lvl, ", ".join(ns))
+        t += ["return ", "", "if (", "l1 = (", "while (1) {"][a % 5]
+        return (src[:line_start] + t).encode()
     if d == "unterminated":
         t = ['"never closed', "/* never closed", "'", "'a", '"esc\\', "(: 1", "({ 1, 2", "([ 1 :", '"nl in\nstring"', "// " + "c" * 5000, "/*/ x /*/", '"a" "b" "c' ][a % 12]
         return (src[:s0] + " " + t + " " + src[s0:]).encode()
